@@ -71,7 +71,9 @@ func genPT(r *kit.Rand, tier kit.Tier) ptCase {
 		case 4:
 			c.Ops = append(c.Ops, ptOp{K: "rev", PPg: uint64(r.Intn(np + 1))})
 		default:
-			c.Ops = append(c.Ops, ptOp{K: "restart"})
+			// Flag 1: the rebuilt table is not empty when the checkpoint is loaded (the
+			// build code of a simulation inserted its initial mapping and looked it up)
+			c.Ops = append(c.Ops, ptOp{K: "restart", PID: pid, VPg: v, PPg: uint64(r.Intn(np)), Flag: r.Intn(2)})
 		}
 	}
 
@@ -80,6 +82,8 @@ func genPT(r *kit.Rand, tier kit.Tier) ptCase {
 
 // runPT executes the history on a real page table. It returns the result
 // sequence and, when checkModel, the first disagreement with the map model.
+var prepop int // restarts of the current execution that loaded into a table already in use
+
 func runPT(c ptCase, withRestarts bool) (results []string, v *kit.Violation, shared int, restarts int) {
 	pt := vm.NewPageTable(c.Log2)
 	model := map[[2]uint64]vm.Page{}
@@ -165,6 +169,14 @@ func runPT(c ptCase, withRestarts bool) (results []string, v *kit.Violation, sha
 			}
 
 			npt := vm.NewPageTable(c.Log2)
+
+			if op.Flag == 1 {
+				pre := mk(ptOp{PID: op.PID, VPg: op.VPg, PPg: op.PPg + 7, Flag: 5})
+				npt.Insert(pre)
+				npt.Find(pre.PID, pre.VAddr)
+				prepop++
+			}
+
 			if err := npt.(ckpt).LoadCheckpoint(&buf); err != nil {
 				return results, kit.Violate("checkpoint", "C26:load", "LoadCheckpoint: %v", err), shared, restarts
 			}
@@ -215,6 +227,7 @@ func execPT(c ptCase, env *kit.Env) kit.Outcome {
 		}
 	}
 
+	prepop = 0
 	withR, v, _, restarts := runPT(c, true)
 	if v != nil {
 		out.Violation = v
@@ -251,6 +264,7 @@ func execPT(c ptCase, env *kit.Env) kit.Outcome {
 
 	out.Steps = uint64(len(c.Ops) * (reps + 2))
 	out.Fault("restart(checkpoint)", restarts)
+	out.Fault("restart-into-prepopulated-table", prepop)
 	out.Probe("reverse-lookup-of-shared-physical-page", shared)
 	out.Shape = fmt.Sprint(c.Log2, c.Ops)
 	out.NonTrivial = shared > 0
@@ -280,7 +294,7 @@ func init() {
 		Assumptions: []string{"only well-formed operations are generated (insert of an absent page, update/remove of a present page, page-aligned addresses for insert/remove)"},
 		Real:        []string{"vm.PageTable", "page table checkpoint codec"},
 		Stubs:       []string{},
-		FaultKinds:  []string{"restart(checkpoint)"},
+		FaultKinds:  []string{"restart(checkpoint)", "restart-into-prepopulated-table"},
 		ReplayTries: 20,
 		Quick:       kit.Budget{Runs: 20000, WallS: 60},
 		Thorough:    kit.Budget{Runs: 1000000, WallS: 600},
